@@ -74,6 +74,12 @@ fn run_replay(job: &Value) {
         if bv.get("chars").is_some() {
             let (text, outs) = replay_string(&mut out, &e, &bv, &phs, i);
             if extras.iter().any(|x| x == "spellings") { meta::whitespace_only(&mut out, &e, &text, &outs, &mut rng, thorough); }
+            // a string with a foreign character stands for many: further variants with other foreign characters
+            if bv["chars"].as_array().map_or(false, |a| a.iter().any(|c| c.as_str() == Some("OTHER"))) {
+                let nvar = if thorough { vocab::FOREIGN.len() as u64 - 1 } else { job["foreign_variants"].as_u64().unwrap_or(7) };
+                let step = (vocab::FOREIGN.len() as u64 / (nvar + 1)).max(1);
+                for k in 1..=nvar { replay_string(&mut out, &e, &bv, &phs, i + k * step * 25 + k); }
+            }
             continue;
         }
         let b = parse_beh(&bv);
@@ -357,7 +363,8 @@ fn main() {
             "loops" => {
                 let v = vocab::Vocab::load(job["vocab"].as_str().unwrap());
                 let mut out = open_out(&job, profile_name());
-                loops::run(&mut out, &v, job["e"].as_str().unwrap(), job["shard"].as_u64().unwrap_or(0), job["nshards"].as_u64().unwrap_or(1), job["start"].as_u64().unwrap_or(0));
+                if job["shapes"].as_bool().unwrap_or(false) { loops::deep_shapes(&mut out, &v, job["e"].as_str().unwrap()); }
+                else { loops::run(&mut out, &v, job["e"].as_str().unwrap(), job["shard"].as_u64().unwrap_or(0), job["nshards"].as_u64().unwrap_or(1), job["start"].as_u64().unwrap_or(0)); }
                 out.heartbeat(u64::MAX);
                 write_stats(&job, &mut out, true);
             }
@@ -365,6 +372,11 @@ fn main() {
         }
     } else if args.len() >= 3 && args[1] == "iso" {
         println!("{}", history::isolated_canon(args[2].parse().unwrap()));
+    } else if args.len() >= 4 && args[1] == "one-thread" {
+        // the same on a spawned thread with the default stack of std::thread (2 MiB), as a library user would call it
+        let (e, x) = (args[2].clone(), args[3].clone());
+        let h = std::thread::spawn(move || { let ph = call::default_placeholder(&e); let (o, t) = call::call(&e, &x, &ph); println!("{} ticks={}", o.show(), t.total()); });
+        let _ = h.join();
     } else if args.len() >= 4 && args[1] == "one" {
         // sc_harness one <evaluator> <expr> [placeholder canon]  -- replay of a single call
         let e = &args[2];
